@@ -40,45 +40,67 @@ fn main() {
         }
     }
     install_panic_hook();
-    if let Some(_r) = replay {
-        eprintln!("replay not yet implemented");
-        std::process::exit(2);
+    if let Some(r) = replay {
+        std::process::exit(replay::run(&r));
     }
     let mut rep = Report::new(&prop, &tier, seed);
-    match prop.as_str() {
-        "C01" => {
-            mon_scancode::run::<ScancodeSet2>("C01", &mut rep);
-            mon_scancode::readme_crosscheck(&mut rep, 2);
-        }
-        "C02" => {
-            mon_scancode::run::<ScancodeSet1>("C02", &mut rep);
-            mon_scancode::readme_crosscheck(&mut rep, 1);
-        }
-        "C03" => mon_layout::run_c03(&mut rep),
-        "C08" => mon_nopanic::run(&mut rep),
-        "C09" => mon_layout::run_c09(&mut rep),
-        "C10" => mon_layout::run_c10(&mut rep),
-        "C11" => mon_layout::run_c11(&mut rep),
-        "C12" => mon_layout::run_c12(&mut rep),
-        "C15" => mon_layout::run_c15(&mut rep),
-        "C16" => mon_layout::run_c16(&mut rep),
-        "C17" => mon_layout::run_c17(&mut rep),
-        "C04" => mon_events::run_c04(&mut rep),
-        "C14" => mon_events::run_c14(&mut rep),
-        "C05" => mon_frame::run_c05(&mut rep),
-        "C06" => mon_frame::run_c06(&mut rep),
-        "C07" => mon_resync::run_both(&mut rep),
-        "C13" => mon_xlate::run(&mut rep),
-        "C18" => mon_compose::run_both(&mut rep),
-        "C19" => mon_pairing::run_both(&mut rep),
-        _ => {
-            eprintln!("unknown property {}", prop);
-            std::process::exit(2);
+    let known = ["C01", "C02", "C03", "C04", "C05", "C06", "C07", "C08", "C09", "C10", "C11", "C12", "C13", "C14", "C15", "C16", "C17", "C18", "C19"];
+    if !known.contains(&prop.as_str()) {
+        eprintln!("unknown property {}", prop);
+        std::process::exit(2);
+    }
+    // A panic that escapes every guarded section is either the crate panicking in a place the monitor
+    // did not expect (a violation: every oracle expects a value) or a bug of the monitor itself (inconclusive).
+    let outcome = report::guarded(|| dispatch(&prop, &mut rep));
+    if let Err(msg) = outcome {
+        let locs: Vec<&str> = msg.split(" @ ").skip(1).collect();
+        let harness_only = !locs.is_empty() && locs.iter().all(|l| l.contains("harness/src/"));
+        if harness_only {
+            rep.inconclusive(format!("the monitor itself panicked: {}", msg));
+        } else {
+            rep.panics += 1;
+            rep.violate(
+                format!("{}|panic-outside-guard|{}", prop, report::panic_sig(&msg)),
+                format!("the crate panicked while the monitor was collecting observations: {}", msg),
+                json::J::Null,
+            );
         }
     }
     let j = rep.to_json().to_pretty();
     match out {
         Some(p) => std::fs::write(&p, j).expect("write result"),
         None => print!("{}", j),
+    }
+}
+
+fn dispatch(prop: &str, rep: &mut Report) {
+    let rep = &mut *rep;
+    match prop {
+        "C01" => {
+            mon_scancode::run::<ScancodeSet2>("C01", rep);
+            mon_scancode::readme_crosscheck(rep, 2);
+        }
+        "C02" => {
+            mon_scancode::run::<ScancodeSet1>("C02", rep);
+            mon_scancode::readme_crosscheck(rep, 1);
+        }
+        "C03" => mon_layout::run_c03(rep),
+        "C08" => mon_nopanic::run(rep),
+        "C09" => mon_layout::run_c09(rep),
+        "C10" => mon_layout::run_c10(rep),
+        "C11" => mon_layout::run_c11(rep),
+        "C12" => mon_layout::run_c12(rep),
+        "C15" => mon_layout::run_c15(rep),
+        "C16" => mon_layout::run_c16(rep),
+        "C17" => mon_layout::run_c17(rep),
+        "C04" => mon_events::run_c04(rep),
+        "C14" => mon_events::run_c14(rep),
+        "C05" => mon_frame::run_c05(rep),
+        "C06" => mon_frame::run_c06(rep),
+        "C07" => mon_resync::run_both(rep),
+        "C13" => mon_xlate::run(rep),
+        "C18" => mon_compose::run_both(rep),
+        "C19" => mon_pairing::run_both(rep),
+        _ => {}
     }
 }
